@@ -286,10 +286,13 @@ where
 {
     log::trace!("transcode {} data to Lua from `{}`", label, path.display());
     let transcode_duration = Timer::now();
-    let value = deserialize_value(content).map_err(E::into)?;
+    let value = deserialize_value(content)
+        .map_err(|err| E::into(err).context(format!("while reading `{}`", path.display())))?;
     let expression = to_expression(&value)
         .map(RequiredResource::Expression)
-        .map_err(DarkluaError::from);
+        .map_err(|err| {
+            DarkluaError::from(err).context(format!("while reading `{}`", path.display()))
+        });
     log::debug!(
         "transcoded {} data to Lua from `{}` in {}",
         label,
